@@ -18,8 +18,9 @@ package failsafe
 //@ extfunc time.Now
 //@   modifies nothing
 //@ extfunc time.Since
+//@   recorded
 //@   modifies nothing
-//@   ensures result >= 0
+//@   ensures result >= 0 && result <= 4611686018427387904
 // ctx.Err(): non-nil exactly when the context is (now observed to be) cancelled; cancellation is monotone.
 //@ extfunc context.Context.Err
 //@   modifies canceled(self)
@@ -504,6 +505,30 @@ package failsafe
 //@   requires e != nil && e.ctx != nil
 //@   ensures [C08.lasterror.reports_cancellation+C05.cancelled_wait_reports_an_error+C17.lasterror.recorded_one_first] (e.lastError != nil ==> result == e.lastError) && (e.lastError == nil && ret(e.ctx.Err, 1) != nil ==> result != nil) && (e.lastError == nil && ret(e.ctx.Err, 1) == nil ==> result == nil)
 //@   modifies canceled(e.ctx), calls(e.ctx.Err)
+// The remaining observation getters (C17: "LastResult and LastError seen by an attempt, a listener or a fallback are those of
+// the most recent completed attempt, and start times and elapsed times are monotone"): each returns the recorded field, the
+// elapsed times are exactly one time.Since of the recorded start.
+//@ func (*execution).LastResult
+//@   unguarded lastResult: read on a private copy (established by the C14.user_callback_gets_copy obligations at every site that calls user code), or on the attempt's own goroutine
+//@   requires e != nil
+//@   ensures [C17.lastresult.recorded] result == e.lastResult
+//@   modifies nothing
+//@ func (*execution).AttemptStartTime
+//@   unguarded attemptStartTime: read on a private copy, or on the attempt's own goroutine
+//@   requires e != nil
+//@   ensures [C17.getter.attempt_start_time] result == e.attemptStartTime
+//@   modifies nothing
+//@ func (*execution).ElapsedTime
+//@   requires e != nil
+//@   ensures [C17.getter.elapsed_since_start] ncalls(extfn("time.Since")) == 1 && result == ret(extfn("time.Since"), 1) && result >= 0 && result <= 4611686018427387904
+//@   oncall time.Since: assert [C17.getter.elapsed_measures_from_start] callarg_0 == e.startTime
+//@   modifies calls(extfn("time.Since"))
+//@ func (*execution).ElapsedAttemptTime
+//@   unguarded attemptStartTime: read on a private copy, or on the attempt's own goroutine
+//@   requires e != nil
+//@   ensures [C17.getter.elapsed_since_attempt_start] ncalls(extfn("time.Since")) == 1 && result == ret(extfn("time.Since"), 1) && result >= 0 && result <= 4611686018427387904
+//@   oncall time.Since: assert [C17.getter.elapsed_attempt_measures_from_attempt_start] callarg_0 == e.attemptStartTime
+//@   modifies calls(extfn("time.Since"))
 //@ func (*execution).Context
 //@   requires e != nil && e.ctx != nil
 //@   ensures [C08.getter.context] result == e.ctx && result != nil
